@@ -339,5 +339,34 @@ func runUdh(s *scenario) {
 			}
 			w.Emit(vt.Ev{"event": "Udh", "cls": ca + "/" + cb, "len_ok": lenOK, "agree": agree, "ref_eq": refEq})
 		}
+		// a key pair whose SHARED SECRET has leading zero bytes (1 pair in 256): the secret is a fixed-length 192 byte string
+		pa := privClass("even", r)
+		ka, err := uniformdh.GenerateKey(&fixedReader{pa})
+		if err != nil {
+			continue
+		}
+		xa := ref.PrivateFromBytes(pa)
+		for try := 0; try < 4000; try++ {
+			pb := privClass("even", 1000*r+try+7)
+			xb := ref.PrivateFromBytes(pb)
+			pubB := ref.UniformDHPublic(xb, false)
+			rs := ref.UniformDHShared(xa, pubB)
+			if rs[0] != 0 {
+				continue
+			}
+			var PB uniformdh.PublicKey
+			if PB.SetBytes(pubB[:]) != nil {
+				break
+			}
+			sa, _ := uniformdh.Handshake(ka, &PB)
+			kb, err := uniformdh.GenerateKey(&fixedReader{pb})
+			agree := false
+			if err == nil {
+				sb, _ := uniformdh.Handshake(kb, &ka.PublicKey)
+				agree = bytes.Equal(sa, sb)
+			}
+			w.Emit(vt.Ev{"event": "Udh", "cls": "secret-leading-zero", "len_ok": len(sa) == 192, "agree": agree && len(sa) == 192, "ref_eq": bytes.Equal(rs[:], sa)})
+			break
+		}
 	}
 }
